@@ -104,7 +104,7 @@ ONames(it) ==
       [] it = "miss" -> <<EVar(<<122>>)>> [] OTHER -> <<>>
 ObjPat(items) == EObj([i \in 1 .. Len(items) |-> OItemE(items[i])])
 NamesOfO(items) == Concat([i \in 1 .. Len(items) |-> ONames(items[i])])
-OSrcs == {"e", "a", "ab", "abc", "abd", "null", "list", "int"}
+OSrcs == {"e", "a", "ab", "abc", "abd", "abr", "null", "list", "int"}
 SrcObj(sx) ==
     CASE sx = "e"   -> EObj(<<>>)
       [] sx = "a"   -> EObj(<<Pair(EStr(KA), I(1))>>)
@@ -113,6 +113,7 @@ SrcObj(sx) ==
       \* with decoys: a key that is the *text* of an interpolated key, and the name of the key variable
       [] sx = "abd" -> EObj(<<Pair(EStr(KA), I(1)), Pair(EStr(KB), I(2)), Pair(EStr(<<36, 123, 107, 118, 125>>), I(98)),
                               Pair(EStr(KV), I(97))>>)
+      [] sx = "abr" -> EObj(<<Pair(EStr(KA), I(1)), Pair(EStr(<<114, 115>>), I(5)), Pair(EStr(KB), I(2)), Pair(EStr(<<118, 49>>), I(6))>>)
       [] sx = "null" -> ENull
       [] sx = "list" -> EList(<<I(1)>>)
       [] sx = "int"  -> I(7)
@@ -184,6 +185,7 @@ C13Params ==
     \cup { <<"fort", <<ft>>, it, 0, "-">> : ft \in DOMAIN ForTargets, it \in DOMAIN ForIters }
     \cup { <<"lpa", its, "ints:n", n, pos>> :          \* [items.., ..a] : the rest is collected into `a`
              its \in UNION {ItemSeqs(m, {"a", "b", "_", "sub"}) : m \in 0 .. 2}, n \in 0 .. MaxSrc, pos \in Positions }
+    \cup { <<"methodspread", <<>>, IF cl THEN "rest" ELSE "exact", n, "-">> : cl \in BOOLEAN, n \in 0 .. 2 }
     \cup { <<"badrest", <<>>, pos, n, "-">> : pos \in {"decl", "assign", "for", "param"}, n \in 0 .. 2 }
     \cup { <<"spreadkind", <<>>, sk, 0, where>> : sk \in {"null", "int", "str", "obj"}, where \in {"list", "call", "first"} }
     \cup { <<"law", <<"collect">>, "-", n, ToString(m)>> : n \in 0 .. MaxSrc + 1, m \in 0 .. 3 }
@@ -205,6 +207,14 @@ C13ProgOf(p) ==
                    NamesOfL(p[2], SplitCollect(p[3])))
       [] p[1] = "op" -> <<SDecl(EVar(KV), EStr(KB))>> \o BindAt(p[5], ObjPat(p[2]), SrcObj(p[3]), NamesOfO(p[2]))
       \* `[a, ..b..]`: the collecting item may not be a spread as well
+      \* o.f(xs..) = o.f(xs[0], .., xs[n-1]): the receiver is no argument
+      [] p[1] = "methodspread" ->
+            LET ps == FParams(p[4], p[3] = "rest") IN
+            <<SDecl(Src, EObj(<<Pair(EStr(<<116>>), I(7)), Pair(EStr(<<102>>), EFunc(ps, p[3] = "rest", PrintAll(ps) \o <<SPrint(EProp(EVar(N_this), <<116>>))>>))>>)),
+              SDecl(V(5), EList(<<I(10), I(20)>>)),
+              SPrint(I(0)), SExpr(ECall(EProp(Src, <<102>>), <<I(10), I(20)>>)),
+              SPrint(I(0)), SExpr(ECallOf(EProp(Src, <<102>>), <<Spread(V(5))>>)),
+              SPrint(I(0)), SExpr(ECallOf(EIndex(Src, EStr(<<102>>)), <<Item(I(10)), Spread(ERIndex(V(5), I(1), ENone))>>))>>
       [] p[1] = "badrest" ->
             LET pat == [t |-> "list", loc |-> NL, collect |-> TRUE,
                         items |-> [i \in 1 .. p[4] |-> Item(V(i))] \o <<Spread(Rest)>>] IN
